@@ -23,9 +23,11 @@ from harness import common
 
 BOUNDS = {
     "quick": {"dispatch": "31 options x 3 positions, one option at a time on top of a fixed command line", "vectors": "6 shapes, numerals = decimals with <= 3 places in [-20, 20], <= 6 steps; date ranges of <= 6 days around 2024-02-28 and 2023-12-30",
-              "validation": "22 malformed command lines with symbolic values where a number is involved"},
+              "validation": "22 malformed command lines with symbolic values where a number is involved",
+              "wellformed": "all 1 554 character-class strings of <= 4 characters (6 classes), digits symbolic",
+              "listing": "10 --list-* command lines x 2 input orders on two overlapping concrete inputs"},
     "thorough": {"dispatch": "31 options x 3 positions, plus all ordered pairs of 8 data options", "vectors": "same shapes, <= 10 steps, date ranges of <= 10 days",
-                 "validation": "same"},
+                 "validation": "same", "wellformed": "all 9 330 class strings of <= 5 characters", "listing": "same"},
 }
 ASSUMPTIONS = ["numerals in vector arguments are decimals with at most 3 places (the docstring's round-off caveat); IEEE rounding inside np.arange/np.round is outside the claim",
                "get_input, Data and the output actions are recording stubs in the dispatch harness (their behaviour: C01-C12)",
@@ -317,6 +319,73 @@ def h_config():
     return fn
 
 
+def h_listing():
+    """--list-thresholds / -quantiles / -locations / -times / -dates print what is common to the inputs
+    after the subsetting options, through the real Data object."""
+    T0 = 1704067200 + 6 * 3600          # 2024-01-01 06:00:00 UTC
+    menu = [
+        (["--list-thresholds"], "Thresholds: 2.5 5 \n"),
+        (["--list-quantiles"], "Quantiles: 0.5 0.9 \n"),
+        (["--list-locations"], "    id     lat     lon    elev\n     2   60.50   10.25   100.0\n     3   61.00   11.00   250.5\n\n"),
+        (["--list-locations", "-l", "3"], "    id     lat     lon    elev\n     3   61.00   11.00   250.5\n\n"),
+        (["--list-locations", "-latrange", "60,60.75"], "    id     lat     lon    elev\n     2   60.50   10.25   100.0\n\n"),
+        (["--list-times"], "%d\n%d\n\n" % (T0 + 86400, T0 + 2 * 86400)),
+        (["--list-times", "-t", str(T0 + 86400)], "%d\n\n" % (T0 + 86400)),
+        (["--list-dates"], "20240102 06:00:00\n20240103 06:00:00\n\n"),
+        (["--list-dates", "-d", "20240103"], "20240103 06:00:00\n\n"),
+        (["--list-thresholds", "--list-times"], "Thresholds: 2.5 5 \n%d\n%d\n\n" % (T0 + 86400, T0 + 2 * 86400)),
+    ]
+
+    def fn(S):
+        import contextlib
+        import io
+        drv = load.modules["verif.driver"]
+        inp = load.modules["verif.input"]
+        MI = common.input_class()
+        words, expected = menu[S.choose("listing", len(menu))]
+        order = S.choose("order", 2)
+
+        def mk(name, ks, ids, thr, qs):
+            shape = (len(ks), 1, len(ids))
+            meta = {1: (60.0, 10.0, 50.0), 2: (60.5, 10.25, 100.0), 3: (61.0, 11.0, 250.5), 4: (62.0, 12.0, 300.0)}
+            return MI(name, common.int_array(S, [T0 + 86400 * k for k in ks]), S.vector([0.0]),
+                      common.locations(ids, [meta[i][0] for i in ids], [meta[i][1] for i in ids], [meta[i][2] for i in ids]),
+                      obs=S.const(np.ones(shape)), fcst=S.const(np.ones(shape)),
+                      thresholds=S.const(thr), threshold_scores=S.const(np.ones(shape + (len(thr),)) * 0.5),
+                      quantiles=S.const(qs), quantile_scores=S.const(np.ones(shape + (len(qs),))))
+        files = {"A.txt": mk("A.txt", [0, 1, 2], [1, 2, 3], [1.0, 2.5, 5.0], [0.1, 0.5, 0.9]),
+                 "B.txt": mk("B.txt", [1, 2, 3], [3, 2, 4], [2.5, 5.0, 10.0], [0.5, 0.9])}
+        names = ["A.txt", "B.txt"][::-1] if order else ["A.txt", "B.txt"]
+        old = inp.get_input
+        inp.get_input = lambda f: files[f]
+        lines = []
+        code = None
+        try:
+            if S.symbolic:
+                def fake_print(*a, **k):
+                    lines.append(" ".join(str(x) for x in a) + k.get("end", "\n"))
+                load.rebind_global(drv, "print", fake_print)
+                try:
+                    drv.run(["verif"] + names + words)
+                except SystemExit as e:
+                    code = e.code if e.code is not None else 0
+                text = "".join(lines)
+            else:
+                buf = io.StringIO()
+                try:
+                    with contextlib.redirect_stdout(buf):
+                        drv.run(["verif"] + names + words)
+                except SystemExit as e:
+                    code = e.code if e.code is not None else 0
+                text = buf.getvalue()
+        finally:
+            inp.get_input = old
+        S.observe("printed", text)
+        S.prove("listing-completes", code is None, detail=" ".join(words))
+        S.prove("listing-prints-what-is-common-after-subsetting", text == expected, detail="%s: %r" % (" ".join(words), text))
+    return fn
+
+
 SHAPES = ["a", "a,b", "a:b", "a:s:b", "a,b:c", "a:s:b,c"]
 
 
@@ -580,5 +649,6 @@ def harnesses(tier):
         Harness("vectors", h_vectors(10 if thorough else 6), "parse_numbers on symbolic decimal tokens"),
         Harness("dates", h_dates(10 if thorough else 6), "parse_dates across month / year / leap boundaries"),
         Harness("validation", h_validation(), "malformed and out-of-range arguments are rejected"),
+        Harness("listing", h_listing(), "--list-thresholds/-quantiles/-locations/-times/-dates on two overlapping inputs"),
         Harness("wellformed", h_wellformed(5 if thorough else 4), "whole arguments as character vectors vs the documented grammar"),
     ]
